@@ -246,6 +246,52 @@ def check_history(version, part):
         w.close()
 
 
+def check_grid(arg, versions, part):
+    """The C13 request grid (every operation x object kind x state x parameter deviations, ~35k
+    well-formed requests in the quick tier) re-driven with the envelope oracle: error paths of
+    every operation, not only the ones the hand-made histories reach."""
+    from checks import c13_no_general_failure as c13
+    w0, uids, kek = c13.base()
+    kind, a = arg
+    if kind == 'target':
+        tlabel, uid, k = a
+        plist = c13.probes(uid, kek, k)
+    else:
+        tlabel, plist = 'no-object', c13.object_free_probes()[a[0]::a[1]]
+    for label, vc, item in plist:
+        for version in versions:
+            if not c13._vok(vc, version):
+                continue
+            try:
+                data = W.encode_request(W.build_request(version, [item()]))
+                m = W.messages.RequestMessage()
+                m.read(W.cutils.BytearrayStream(data), kmip_version=enums.KMIPVersion.KMIP_1_2)
+            except Exception:   # noqa - not expressible / not well-formed for this version
+                continue
+            w = w0.clone()
+            try:
+                W.CLOCK.now = W.T0 + 50
+                try:
+                    resp = w.send_bytes(data, user='alice')
+                except Exception as e:   # noqa
+                    part.violation("session-raises|grid|%s" % label.split('|')[0],
+                                   "session raised %s for %s on %s" % (type(e).__name__, label, tlabel),
+                                   {'grid': [kind, list(a)], 'probe': label, 'version': list(version)})
+                    continue
+            finally:
+                w.close()
+            part.count('responses')
+            part.count('grid_responses')
+            probs = envelope_problems(resp, tuple(version), True)
+            part.counters.setdefault('_out', set()).add(('grid:' + label.split('|')[0], not probs))
+            for key, what in probs:
+                part.violation("envelope|%s|grid:%s" % (key, label.split('|')[0]),
+                               "response to '%s' on %s under KMIP %d.%d: %s" % (
+                                   label, tlabel, version[0], version[1], what),
+                               {'grid': [kind, list(a)], 'probe': label, 'version': list(version)})
+    part.sample({'grid_target': tlabel, 'probes': len(plist)})
+
+
 def _judge(resp, version, decodable, label, part, auth=False):
     # certificate-stage failures are answered before the request is parsed: only a supported version
     # is demanded there (DESIGN 4/C02)
@@ -272,6 +318,8 @@ def _worker(task):
             for name in arg:
                 check_class_bytes(name, part)
             part.sample({'classes': arg[:5]})
+        elif kind == 'grid':
+            check_grid(arg[0], arg[1], part)
         else:
             check_history(arg, part)
     finally:
@@ -286,6 +334,15 @@ def run(tier, seed):
     names = c01.structure_names()
     n = 20
     tasks = [('classes', names[i::n]) for i in range(n)] + [('history', v) for v in W.VERSIONS]
+    from checks import c13_no_general_failure as c13
+    targets, kek = c13.grid(tier)
+    vq = [(1, 0), (1, 2), (1, 4), (2, 0)]
+    for t in targets:
+        vs = W.VERSIONS if tier == 'thorough' else (vq if t[0] in (
+            'SymmetricKey/act', 'PrivateKey/act', 'PublicKey/act') else [(1, 4), (2, 0)])
+        tasks.append(('grid', (('target', t), vs)))
+    for i in range(8):
+        tasks.append(('grid', (('free', (i, 8)), W.VERSIONS if tier == 'thorough' else vq)))
     outs = set()
     for part in pmap(_worker, tasks):
         outs.update(tuple(o) for o in part.pop('out', []))
@@ -300,9 +357,12 @@ def run(tier, seed):
              "universe (presence lattice + single-field sweeps per class x 6 versions), (ii) each "
              "response of a real session+engine to a ~85-request history per version covering every "
              "operation, every error class, request-level rejections, undecodable frames, "
-             "certificate/identity failures and oversize replacement. distinct_nontrivial = distinct "
+             "certificate/identity failures and oversize replacement, (iii) each response to the C13 "
+             "request grid (operation x object kind x state x parameter deviations; grid_responses). "
+             "distinct_nontrivial = distinct "
              "(class or history label, verdict) pairs",
         codec_encodings=enc, server_responses=resp, versions=len(W.VERSIONS), exhaustive=False,
+        grid_responses=rep.counters.get('grid_responses', 0),
     ), assumptions=[
         "the independent parser (mc/ref/ttlv.py) is the reading of the KMIP TTLV definition used as "
         "the oracle; BigInteger length minimality is not demanded",
@@ -318,6 +378,11 @@ def replay(doc):
     try:
         if 'class' in doc:
             check_class_bytes(doc['class'], part)
+        elif 'grid' in doc:
+            g = doc['grid']
+            arg = (g[0], tuple(g[1]))
+            check_grid(arg, [tuple(doc['version'])], part)
+            part.violations[:] = [v for v in part.violations if v[2].get('probe') == doc['probe']]
         else:
             check_history(tuple(doc['version']), part)
     finally:
